@@ -10,8 +10,12 @@ import (
 	"sort"
 	"strings"
 
+	"golang.org/x/tools/go/cfg"
+
 	"gnoverif/engine"
 )
+
+type hhCfgBlock = cfg.Block
 
 // hhFact is an atomic boolean expression known to be true (or false) at a site.
 type hhFact struct {
@@ -36,6 +40,16 @@ func hhSplit(e ast.Expr, truth bool, out *[]hhFact) {
 			hhSplit(x.Y, truth, out)
 			return
 		}
+		// x == true / x != false / x == false / x != true
+		if x.Op == token.EQL || x.Op == token.NEQ {
+			for _, pr := range [][2]ast.Expr{{x.X, x.Y}, {x.Y, x.X}} {
+				if id := hhIdent(pr[1]); id != nil && (id.Name == "true" || id.Name == "false") && id.Obj == nil {
+					same := (id.Name == "true") == (x.Op == token.EQL)
+					hhSplit(pr[0], truth == same, out)
+					return
+				}
+			}
+		}
 	}
 	*out = append(*out, hhFact{e, truth})
 }
@@ -44,18 +58,7 @@ func hhSplit(e ast.Expr, truth bool, out *[]hhFact) {
 // site s (conditions dominating s of which exactly one branch reaches s).
 // Case expressions of tagged switches are not boolean conditions and are skipped.
 func hhFacts(f *engine.Fn, s *engine.Site) []hhFact {
-	var out []hhFact
-	if s == nil {
-		return nil
-	}
-	info := f.Info()
-	for _, gt := range f.Graph().Gates(s) {
-		if !hhIsBool(info, gt.Cond) {
-			continue
-		}
-		hhSplit(gt.Cond, gt.OnTrue, &out)
-	}
-	return out
+	return hhFactsD(f, s, 2)
 }
 
 func hhIsBool(info *types.Info, e ast.Expr) bool {
@@ -130,6 +133,12 @@ func hhIsChain(info *types.Info, e ast.Expr, root types.Object, fields ...string
 		return false
 	}
 	r, fs, ok := hhChain(info, e)
+	if ok && r != root {
+		// the root may be a local alias of the expected chain
+		if e2, changed := hhResolveRoot(info, e); changed {
+			return hhIsChain(info, e2, root, fields...)
+		}
+	}
 	if !ok || r != root || len(fs) != len(fields) {
 		return false
 	}
@@ -250,6 +259,12 @@ func hhConstName(info *types.Info, e ast.Expr) string {
 // in f's own body that assign the object.
 func hhAssignsTo(f *engine.Fn, obj types.Object) []ast.Node {
 	var out []ast.Node
+	if obj != nil && f.Body != nil && !(f.Body.Pos() <= obj.Pos() && obj.Pos() < f.Body.End()) && !(f.Pos() <= obj.Pos() && obj.Pos() < f.Body.Pos()) {
+		// a local of another function of the package (seen through an inlined helper)
+		if g := f.Prog.EnclosingFn(f.Pkg.PkgPath, obj.Pos()); g != nil && g != f {
+			return hhAssignsTo(g, obj)
+		}
+	}
 	info := f.Info()
 	engine.InspectBody(f, func(n ast.Node) {
 		switch x := n.(type) {
@@ -613,6 +628,9 @@ func hhNorm(f *engine.Fn, e ast.Expr, names map[types.Object]string, depth int) 
 	case *ast.IndexExpr:
 		return hhNorm(f, x.X, names, depth) + "[" + hhNorm(f, x.Index, names, depth) + "]"
 	case *ast.CallExpr:
+		if n, ok := hhInlineCall(f, x, 3); ok {
+			return hhNorm(f, n, names, depth)
+		}
 		var args []string
 		for _, a := range x.Args {
 			args = append(args, hhNorm(f, a, names, depth))
@@ -763,6 +781,10 @@ func hhSufficient(f *engine.Fn, s *engine.Site) []hhFact {
 				return
 			}
 		}
+		if n, ok := hhInlineCall(f, e, 3); ok {
+			rec(n, truth)
+			return
+		}
 		out = append(out, hhFact{e, truth})
 	}
 	for _, gt := range f.Graph().Gates(s) {
@@ -776,8 +798,15 @@ func hhSufficient(f *engine.Fn, s *engine.Site) []hhFact {
 // hhCtx renders the facts gating a site as sorted normalised strings
 // ("x < y", "!f(a)", "ok").
 func hhCtx(f *engine.Fn, s *engine.Site, names map[types.Object]string, depth int) []string {
+	return hhRenderFacts(f, hhFacts(f, s), names, depth)
+}
+
+// hhRenderFacts renders facts (already in f's terms) as sorted, de-duplicated strings.
+func hhRenderFacts(f *engine.Fn, facts []hhFact, names map[types.Object]string, depth int) []string {
 	var xs []string
-	for _, ft := range hhFacts(f, s) {
+	seen := map[string]bool{}
+	defer func() {}()
+	for _, ft := range facts {
 		if x, op, y, isCmp := hhCmp(ft); isCmp {
 			xs = append(xs, hhNorm(f, x, names, depth)+" "+op.String()+" "+hhNorm(f, y, names, depth))
 			continue
@@ -789,7 +818,51 @@ func hhCtx(f *engine.Fn, s *engine.Site, names map[types.Object]string, depth in
 		xs = append(xs, t)
 	}
 	sort.Strings(xs)
+	_ = seen
 	return xs
+}
+
+// hhExit is one way a function leaves: the returned expressions and the
+// facts under which that happens, in the root function's terms. Exits that
+// return the call of an unexported same-package helper are expanded into the
+// helper's own exits.
+type hhExit struct {
+	Results []ast.Expr
+	Facts   []hhFact
+	Pos     token.Pos
+}
+
+func hhExits(fn *engine.Fn, depth int) []hhExit {
+	var out []hhExit
+	for _, rb := range fn.Graph().ReturnBlocks() {
+		ret := rb.Return()
+		rs := fn.SiteOf(ret)
+		if ret == nil || rs == nil {
+			continue
+		}
+		facts := hhFacts(fn, rs)
+		if len(ret.Results) == 1 && depth > 0 {
+			if call, ok := ast.Unparen(ret.Results[0]).(*ast.CallExpr); ok {
+				if h := hhCalleeFn(fn, call); h != nil && h.Obj != nil && !h.Obj.Exported() {
+					bind := hhBind(h, call)
+					for _, ex := range hhExits(h, depth-1) {
+						e2 := hhExit{Pos: ret.Pos()}
+						for _, r := range ex.Results {
+							e2.Results = append(e2.Results, hhIntoCaller(h, bind, r))
+						}
+						e2.Facts = append(e2.Facts, facts...)
+						for _, ft := range ex.Facts {
+							e2.Facts = append(e2.Facts, hhFact{hhIntoCaller(h, bind, ft.E), ft.True})
+						}
+						out = append(out, e2)
+					}
+					continue
+				}
+			}
+		}
+		out = append(out, hhExit{Results: ret.Results, Facts: facts, Pos: ret.Pos()})
+	}
+	return out
 }
 
 // hhSortedJoin sorts a "; "-separated list.
@@ -797,4 +870,953 @@ func hhSortedJoin(s string) string {
 	xs := strings.Split(s, "; ")
 	sort.Strings(xs)
 	return strings.Join(xs, "; ")
+}
+
+// ======================================================================
+// Helper transparency (robustness against extract/inline-helper refactors)
+// ======================================================================
+//
+// All functions of one package share one types.Info, so an expression of a
+// same-package helper can be rewritten into the caller's terms by substituting
+// the helper's parameters (and receiver) by the argument expressions of the
+// call: the result is an ordinary ast.Expr whose identifiers still resolve.
+
+// hhSubst clones e, replacing identifiers resolving to keys of m. Unchanged
+// sub-trees keep their identity (so info.Types still knows them).
+func hhSubst(info *types.Info, e ast.Expr, m map[types.Object]ast.Expr) ast.Expr {
+	if e == nil || len(m) == 0 {
+		return e
+	}
+	switch x := e.(type) {
+	case *ast.Ident:
+		if o := info.ObjectOf(x); o != nil {
+			if r, ok := m[o]; ok {
+				return r
+			}
+		}
+		return x
+	case *ast.ParenExpr:
+		if n := hhSubst(info, x.X, m); n != x.X {
+			return &ast.ParenExpr{Lparen: x.Lparen, X: n, Rparen: x.Rparen}
+		}
+	case *ast.SelectorExpr:
+		if n := hhSubst(info, x.X, m); n != x.X {
+			return &ast.SelectorExpr{X: n, Sel: x.Sel}
+		}
+	case *ast.StarExpr:
+		if n := hhSubst(info, x.X, m); n != x.X {
+			return &ast.StarExpr{Star: x.Star, X: n}
+		}
+	case *ast.UnaryExpr:
+		if n := hhSubst(info, x.X, m); n != x.X {
+			return &ast.UnaryExpr{OpPos: x.OpPos, Op: x.Op, X: n}
+		}
+	case *ast.BinaryExpr:
+		a, b := hhSubst(info, x.X, m), hhSubst(info, x.Y, m)
+		if a != x.X || b != x.Y {
+			return &ast.BinaryExpr{X: a, OpPos: x.OpPos, Op: x.Op, Y: b}
+		}
+	case *ast.IndexExpr:
+		a, b := hhSubst(info, x.X, m), hhSubst(info, x.Index, m)
+		if a != x.X || b != x.Index {
+			return &ast.IndexExpr{X: a, Lbrack: x.Lbrack, Index: b, Rbrack: x.Rbrack}
+		}
+	case *ast.SliceExpr:
+		a, l, h, mx := hhSubst(info, x.X, m), hhSubst(info, x.Low, m), hhSubst(info, x.High, m), hhSubst(info, x.Max, m)
+		if a != x.X || l != x.Low || h != x.High || mx != x.Max {
+			return &ast.SliceExpr{X: a, Lbrack: x.Lbrack, Low: l, High: h, Max: mx, Slice3: x.Slice3, Rbrack: x.Rbrack}
+		}
+	case *ast.TypeAssertExpr:
+		if n := hhSubst(info, x.X, m); n != x.X {
+			return &ast.TypeAssertExpr{X: n, Lparen: x.Lparen, Type: x.Type, Rparen: x.Rparen}
+		}
+	case *ast.KeyValueExpr:
+		if n := hhSubst(info, x.Value, m); n != x.Value {
+			return &ast.KeyValueExpr{Key: x.Key, Colon: x.Colon, Value: n}
+		}
+	case *ast.CompositeLit:
+		changed := false
+		els := make([]ast.Expr, len(x.Elts))
+		for i, el := range x.Elts {
+			els[i] = hhSubst(info, el, m)
+			if els[i] != el {
+				changed = true
+			}
+		}
+		if changed {
+			return &ast.CompositeLit{Type: x.Type, Lbrace: x.Lbrace, Elts: els, Rbrace: x.Rbrace}
+		}
+	case *ast.CallExpr:
+		changed := false
+		fun := hhSubst(info, x.Fun, m)
+		if fun != x.Fun {
+			changed = true
+		}
+		args := make([]ast.Expr, len(x.Args))
+		for i, a := range x.Args {
+			args[i] = hhSubst(info, a, m)
+			if args[i] != a {
+				changed = true
+			}
+		}
+		if changed {
+			return &ast.CallExpr{Fun: fun, Lparen: x.Lparen, Args: args, Ellipsis: x.Ellipsis, Rparen: x.Rparen}
+		}
+	}
+	return e
+}
+
+// hhCalleeFn returns the same-package function (with body) a call resolves to.
+func hhCalleeFn(f *engine.Fn, call *ast.CallExpr) *engine.Fn {
+	var id *ast.Ident
+	switch x := ast.Unparen(call.Fun).(type) {
+	case *ast.Ident:
+		id = x
+	case *ast.SelectorExpr:
+		id = x.Sel
+	}
+	if id == nil {
+		return nil
+	}
+	fn, ok := f.Info().ObjectOf(id).(*types.Func)
+	if !ok {
+		return nil
+	}
+	h := f.Prog.FnOf(fn)
+	if h == nil || h.Pkg != f.Pkg || h.Decl == nil {
+		return nil
+	}
+	if sig, _ := fn.Type().(*types.Signature); sig != nil && sig.Recv() != nil {
+		if _, isIface := sig.Recv().Type().Underlying().(*types.Interface); isIface {
+			return nil
+		}
+	}
+	return h
+}
+
+// hhBind maps the parameters (and receiver) of helper h to the argument
+// expressions of the call (already expressed in the caller's terms).
+func hhBind(h *engine.Fn, call *ast.CallExpr) map[types.Object]ast.Expr {
+	m := map[types.Object]ast.Expr{}
+	info := h.Info()
+	if h.Decl.Recv != nil && len(h.Decl.Recv.List) == 1 && len(h.Decl.Recv.List[0].Names) == 1 {
+		if sel, ok := ast.Unparen(call.Fun).(*ast.SelectorExpr); ok {
+			if o := info.ObjectOf(h.Decl.Recv.List[0].Names[0]); o != nil {
+				m[o] = sel.X
+			}
+		}
+	}
+	i := 0
+	for _, fld := range h.Decl.Type.Params.List {
+		for _, nm := range fld.Names {
+			if i < len(call.Args) {
+				if o := info.ObjectOf(nm); o != nil {
+					m[o] = call.Args[i]
+				}
+			}
+			i++
+		}
+	}
+	return m
+}
+
+// hhExprHelper recognises a helper whose body is straight-line single
+// definitions followed by one `return expr`; it returns that expression with
+// the locals substituted (still in the helper's parameters).
+func hhExprHelper(h *engine.Fn) (ast.Expr, bool) {
+	if h == nil || h.Body == nil || len(h.Body.List) == 0 || len(h.Body.List) > 6 {
+		return nil, false
+	}
+	info := h.Info()
+	loc := map[types.Object]ast.Expr{}
+	for i, st := range h.Body.List {
+		last := i == len(h.Body.List)-1
+		switch s := st.(type) {
+		case *ast.AssignStmt:
+			if last || s.Tok != token.DEFINE || len(s.Lhs) != len(s.Rhs) {
+				return nil, false
+			}
+			for j, l := range s.Lhs {
+				id := hhIdent(l)
+				if id == nil {
+					return nil, false
+				}
+				loc[info.ObjectOf(id)] = hhSubst(info, s.Rhs[j], loc)
+			}
+		case *ast.ReturnStmt:
+			if !last || len(s.Results) != 1 {
+				return nil, false
+			}
+			return hhSubst(info, s.Results[0], loc), true
+		default:
+			return nil, false
+		}
+	}
+	return nil, false
+}
+
+// hhInlineCall rewrites a call of an expression-like same-package helper into
+// the helper's result expression in the caller's terms.
+func hhInlineCall(f *engine.Fn, e ast.Expr, depth int) (ast.Expr, bool) {
+	call, ok := ast.Unparen(e).(*ast.CallExpr)
+	if !ok || depth <= 0 {
+		return e, false
+	}
+	h := hhCalleeFn(f, call)
+	if h == nil {
+		return e, false
+	}
+	if h.Obj == nil || h.Obj.Exported() {
+		return e, false // exported functions are vocabulary, not refactoring artefacts
+	}
+	ret, ok := hhExprHelper(h)
+	if !ok {
+		return e, false
+	}
+	out := hhSubst(f.Info(), ret, hhBind(h, call))
+	if n, ok2 := hhInlineCall(f, out, depth-1); ok2 {
+		out = n
+	}
+	return out, true
+}
+
+// hhSplitF is hhSplit that additionally looks through expression-like helper
+// calls (`if !signedBy(v, c, i)` is the helper's returned condition).
+func hhSplitF(f *engine.Fn, e ast.Expr, truth bool, out *[]hhFact) {
+	var tmp []hhFact
+	hhSplit(e, truth, &tmp)
+	for _, ft := range tmp {
+		if n, ok := hhInlineCall(f, ft.E, 3); ok {
+			hhSplitF(f, n, ft.True, out)
+			continue
+		}
+		// a boolean local defined once by a compound condition
+		// (`crossed := a < q && q <= b; if crossed && …`)
+		if id := hhIdent(ft.E); id != nil {
+			if v, isVar := f.Info().ObjectOf(id).(*types.Var); isVar && !v.IsField() && v.Pkg() != nil && v.Parent() != v.Pkg().Scope() {
+				if d := hhDefExpr(f, v); d != nil {
+					switch dx := ast.Unparen(d).(type) {
+					case *ast.BinaryExpr:
+						switch dx.Op {
+						case token.LAND, token.LOR, token.EQL, token.NEQ, token.LSS, token.LEQ, token.GTR, token.GEQ:
+							hhSplitF(f, d, ft.True, out)
+							continue
+						}
+					case *ast.UnaryExpr:
+						if dx.Op == token.NOT {
+							hhSplitF(f, d, ft.True, out)
+							continue
+						}
+					}
+				}
+			}
+		}
+		*out = append(*out, ft)
+	}
+}
+
+// hhSuccessFacts: the facts established by "the call returned a nil error",
+// for a same-package helper with exactly one `return …, nil` exit: the facts
+// gating that exit, in the caller's terms.
+func hhSuccessFacts(f *engine.Fn, call *ast.CallExpr, depth int) []hhFact {
+	if depth <= 0 {
+		return nil
+	}
+	h := hhCalleeFn(f, call)
+	if h == nil {
+		return nil
+	}
+	var nilRets []*ast.ReturnStmt
+	bad := false
+	for _, rb := range h.Graph().ReturnBlocks() {
+		r := rb.Return()
+		if r == nil || len(r.Results) == 0 {
+			bad = true
+			continue
+		}
+		if isNil(r.Results[len(r.Results)-1]) {
+			nilRets = append(nilRets, r)
+		}
+	}
+	if bad || len(nilRets) != 1 {
+		return nil
+	}
+	rs := h.SiteOf(nilRets[0])
+	if rs == nil {
+		return nil
+	}
+	m := hhBind(h, call)
+	var out []hhFact
+	for _, ft := range hhFactsD(h, rs, depth-1) {
+		out = append(out, hhFact{hhSubst(h.Info(), ft.E, m), ft.True})
+	}
+	return out
+}
+
+// hhErrSource finds the call whose error result the identifier in a nil
+// comparison holds at the gate: the assignment of that variable from a call
+// that dominates the gate with no other assignment in between.
+func hhErrSource(f *engine.Fn, v types.Object, gate *hhCfgBlock) *ast.CallExpr {
+	g := f.Graph()
+	var best *engine.Site
+	var bestCall *ast.CallExpr
+	for _, a := range hhAssignsTo(f, v) {
+		as, ok := a.(*ast.AssignStmt)
+		if !ok || len(as.Rhs) != 1 {
+			continue
+		}
+		call, ok := ast.Unparen(as.Rhs[0]).(*ast.CallExpr)
+		if !ok {
+			continue
+		}
+		s := f.SiteOf(as)
+		if s == nil || !(s.Block == gate || g.BlockDominates(s.Block, gate)) {
+			continue
+		}
+		if best == nil || g.Dominates(best, s) {
+			best, bestCall = s, call
+		}
+	}
+	if best == nil {
+		return nil
+	}
+	// no later assignment between best and the gate
+	for _, a := range hhAssignsTo(f, v) {
+		s := f.SiteOf(a)
+		if s == nil || s == best || s.Node == best.Node {
+			continue
+		}
+		if g.Dominates(best, s) && (s.Block == gate || g.BlockDominates(s.Block, gate)) {
+			return nil
+		}
+	}
+	return bestCall
+}
+
+// hhFactsD is hhFacts with helper transparency: helper-call atoms are
+// inlined, and `err == nil` facts about a same-package helper contribute the
+// facts of the helper's single success exit.
+func hhFactsD(f *engine.Fn, s *engine.Site, depth int) []hhFact {
+	var out []hhFact
+	if s == nil {
+		return nil
+	}
+	info := f.Info()
+	for _, gt := range f.Graph().Gates(s) {
+		if !hhIsBool(info, gt.Cond) {
+			continue
+		}
+		var fs []hhFact
+		hhSplitF(f, gt.Cond, gt.OnTrue, &fs)
+		out = append(out, fs...)
+		if depth <= 0 {
+			continue
+		}
+		for _, ft := range fs {
+			x, notNil, ok := hhNilCmp(ft.E)
+			if !ok || notNil == ft.True { // only "== nil" facts
+				continue
+			}
+			var call *ast.CallExpr
+			if c, isCall := ast.Unparen(x).(*ast.CallExpr); isCall {
+				call = c
+			} else if id := hhIdent(x); id != nil {
+				call = hhErrSource(f, info.ObjectOf(id), gt.Block)
+			}
+			if call != nil {
+				out = append(out, hhSuccessFacts(f, call, depth)...)
+			}
+		}
+	}
+	return out
+}
+
+// hhDeepCalls: calls matching pats made by f directly or through in-program helpers.
+func hhDeepCalls(f *engine.Fn, pats ...string) []engine.DeepSite {
+	var out []engine.DeepSite
+	for _, d := range f.DeepCallsTo(3, pats...) {
+		if !hhChainStopped(d) {
+			out = append(out, d)
+		}
+	}
+	return out
+}
+
+// hhDeepMap returns the substitution that rewrites expressions of the
+// function containing d.Inner into the terms of d.Outer's function.
+func hhDeepMap(d engine.DeepSite) func(ast.Expr) ast.Expr {
+	if d.Inner == d.Outer || len(d.Chain) == 0 {
+		return func(e ast.Expr) ast.Expr { return e }
+	}
+	// compose level by level
+	type level struct {
+		h *engine.Fn
+		m map[types.Object]ast.Expr
+	}
+	var levels []level
+	call := d.Outer.Call
+	for i, h := range d.Chain {
+		m := hhBind(h, call)
+		// arguments of this level are in the previous helper's terms: rewrite them
+		for k, v := range m {
+			for j := len(levels) - 1; j >= 0; j-- {
+				v = hhSubst(levels[j].h.Info(), v, levels[j].m)
+			}
+			m[k] = v
+		}
+		levels = append(levels, level{h, m})
+		if i+1 < len(d.Chain) {
+			next := d.Chain[i+1]
+			call = nil
+			for _, s := range h.Calls() {
+				if fn, _ := s.Callee.(*types.Func); fn != nil && h.Prog.FnOf(fn) == next {
+					call = s.Call
+				}
+			}
+			if call == nil {
+				break
+			}
+		}
+	}
+	return func(e ast.Expr) ast.Expr {
+		if len(levels) == 0 {
+			return e
+		}
+		l := levels[len(levels)-1]
+		return hhIntoCaller(l.h, l.m, e)
+	}
+}
+
+// hhLevels lists, outermost first, the (function, site) pairs of a deep site:
+// (f, call of helper1), (helper1, call of helper2), …, (helperN, inner site).
+type hhLevel struct {
+	Fn   *engine.Fn
+	Site *engine.Site
+}
+
+func hhLevels(f *engine.Fn, d engine.DeepSite) []hhLevel {
+	out := []hhLevel{{f, d.Outer}}
+	if d.Inner == d.Outer {
+		return out
+	}
+	for i, h := range d.Chain {
+		var at *engine.Site
+		if i == len(d.Chain)-1 {
+			at = d.Inner
+		} else {
+			for _, s := range h.Calls() {
+				if fn, _ := s.Callee.(*types.Func); fn != nil && h.Prog.FnOf(fn) == d.Chain[i+1] {
+					at = s
+				}
+			}
+		}
+		if at == nil {
+			return out
+		}
+		out = append(out, hhLevel{h, at})
+	}
+	return out
+}
+
+// hhErrReturned: in fn, a non-nil error of the call at site s leaves fn
+// through a return of a non-nil last result.
+func hhErrReturned(fn *engine.Fn, s *engine.Site) bool {
+	for _, rb := range fn.Graph().ReturnBlocks() {
+		ret := rb.Return()
+		if ret == nil || len(ret.Results) == 0 || isNil(ret.Results[len(ret.Results)-1]) {
+			continue
+		}
+		if ast.Unparen(ret.Results[len(ret.Results)-1]) == ast.Expr(s.Call) {
+			return true // return call(...)
+		}
+		rs := fn.SiteOf(ret)
+		if rs == nil {
+			continue
+		}
+		if ok, _ := hhErrGuardInv(fn, s, rs); ok {
+			return true
+		}
+	}
+	return false
+}
+
+// hhDescend: while every deep site in the given groups is reached through one
+// and the same helper call of f, continue the analysis inside that helper.
+func hhDescend(f *engine.Fn, pats ...[]string) *engine.Fn {
+	for depth := 0; depth < 3; depth++ {
+		var common *engine.Fn
+		var outer *engine.Site
+		ok := true
+		n := 0
+		for _, ps := range pats {
+			for _, d := range hhDeepCalls(f, ps...) {
+				n++
+				if d.Inner == d.Outer || len(d.Chain) == 0 {
+					ok = false
+					continue
+				}
+				if common == nil {
+					common, outer = d.Chain[0], d.Outer
+				} else if common != d.Chain[0] || outer != d.Outer {
+					ok = false
+				}
+			}
+		}
+		if !ok || common == nil || n == 0 {
+			return f
+		}
+		f = common
+	}
+	return f
+}
+
+// hhDeepFacts: facts at the outer site plus the facts gating the inner site
+// inside the helpers, rewritten into the outer function's terms.
+func hhDeepFacts(f *engine.Fn, d engine.DeepSite) []hhFact {
+	out := hhFacts(f, d.Outer)
+	if d.Inner == d.Outer || len(d.Chain) == 0 {
+		return out
+	}
+	// per level: facts at the call of the next helper (or the inner site)
+	call := d.Outer.Call
+	var maps []struct {
+		h *engine.Fn
+		m map[types.Object]ast.Expr
+	}
+	for i, h := range d.Chain {
+		m := hhBind(h, call)
+		for k, v := range m {
+			for j := len(maps) - 1; j >= 0; j-- {
+				v = hhSubst(maps[j].h.Info(), v, maps[j].m)
+			}
+			m[k] = v
+		}
+		maps = append(maps, struct {
+			h *engine.Fn
+			m map[types.Object]ast.Expr
+		}{h, m})
+		var at *engine.Site
+		if i == len(d.Chain)-1 {
+			at = d.Inner
+		} else {
+			for _, s := range h.Calls() {
+				if fn, _ := s.Callee.(*types.Func); fn != nil && h.Prog.FnOf(fn) == d.Chain[i+1] {
+					at = s
+				}
+			}
+		}
+		if at == nil {
+			break
+		}
+		for _, ft := range hhFacts(h, at) {
+			out = append(out, hhFact{hhSubst(h.Info(), ft.E, m), ft.True})
+		}
+		call = at.Call
+	}
+	return out
+}
+
+// hhDeepArg returns the i-th argument of the inner call in the outer function's terms.
+func hhDeepArg(d engine.DeepSite, i int) ast.Expr {
+	a := hhArg(d.Inner.Call, i)
+	if a == nil {
+		return nil
+	}
+	return hhDeepMap(d)(a)
+}
+
+// hhDeepRecv returns the receiver expression of the inner method call in the
+// outer function's terms.
+func hhDeepRecv(d engine.DeepSite) ast.Expr {
+	sel, ok := ast.Unparen(d.Inner.Call.Fun).(*ast.SelectorExpr)
+	if !ok {
+		return nil
+	}
+	return hhDeepMap(d)(sel.X)
+}
+
+// hhDeepErrGuard: target (a site of f) is reached only when the deep call
+// returned a nil error. Directly: hhErrGuard. Through helpers: the call of the
+// outermost helper error-guards the target, and inside each helper every exit
+// with a nil error is itself error-guarded by the next call on the chain
+// (other exits must return that call's error or a non-nil error).
+func hhDeepErrGuard(f *engine.Fn, d engine.DeepSite, target *engine.Site) (bool, string) {
+	if ok, why := hhErrGuard(f, d.Outer, target); !ok {
+		return false, why
+	}
+	if d.Inner == d.Outer {
+		return true, "reached only when the returned error is nil"
+	}
+	for i, h := range d.Chain {
+		var at *engine.Site
+		if i == len(d.Chain)-1 {
+			at = d.Inner
+		} else {
+			for _, s := range h.Calls() {
+				if fn, _ := s.Callee.(*types.Func); fn != nil && h.Prog.FnOf(fn) == d.Chain[i+1] {
+					at = s
+				}
+			}
+		}
+		if at == nil {
+			return false, "helper chain not resolvable"
+		}
+		info := h.Info()
+		n := 0
+		for _, rb := range h.Graph().ReturnBlocks() {
+			r := rb.Return()
+			if r == nil || len(r.Results) == 0 {
+				return false, "helper " + h.Name + " has a bare return"
+			}
+			last := r.Results[len(r.Results)-1]
+			if ast.Unparen(last) == ast.Expr(at.Call) {
+				continue // return inner(...)
+			}
+			rs := h.SiteOf(r)
+			if isNil(last) {
+				n++
+				if ok, why := hhErrGuard(h, at, rs); !ok {
+					return false, "helper " + h.Name + " can report success although the call failed: " + why
+				}
+				continue
+			}
+			// `return err` of the call under err != nil, or any explicit non-nil error value
+			if id := hhIdent(last); id != nil {
+				if _, isVar := info.ObjectOf(id).(*types.Var); isVar {
+					rv := hhResultVars(h, at)
+					isErrVar := false
+					for _, v := range rv {
+						if v != nil && v == info.ObjectOf(id) {
+							isErrVar = true
+						}
+					}
+					if isErrVar {
+						continue
+					}
+					if v := info.ObjectOf(id).(*types.Var); v.Parent() == v.Pkg().Scope() {
+						continue // package-level error value
+					}
+					return false, "helper " + h.Name + " returns an unrelated error variable"
+				}
+			}
+		}
+		_ = n
+	}
+	return true, "reached only when the (helper-wrapped) call succeeded"
+}
+
+// hhDeepAssign is a field assignment `root.fields… = rhs` made by f directly
+// or inside a same-program helper, expressed in f's terms.
+type hhDeepAssign struct {
+	Fields []string
+	Rhs    ast.Expr // in f's terms
+	Lhs    ast.Expr
+	D      engine.DeepSite
+	Stmt   *ast.AssignStmt
+}
+
+// hhDeepFieldAssigns lists 1:1 assignments whose LHS, rewritten into f's
+// terms, is a selector chain rooted at root (f's receiver, say), following
+// helper calls up to depth 3.
+func hhDeepFieldAssigns(f *engine.Fn, root types.Object) []hhDeepAssign {
+	var out []hhDeepAssign
+	ds := f.DeepFind(3, func(fn *engine.Fn, n ast.Node) bool {
+		st, ok := n.(*ast.AssignStmt)
+		if !ok || len(st.Lhs) != len(st.Rhs) {
+			return false
+		}
+		for _, l := range st.Lhs {
+			if _, fs, ok := hhChain(fn.Info(), l); ok && len(fs) > 0 {
+				return true
+			}
+		}
+		return false
+	})
+	info := f.Info()
+	for _, d := range ds {
+		if hhChainStopped(d) {
+			continue
+		}
+		st := d.Inner.Node.(*ast.AssignStmt)
+		mp := hhDeepMap(d)
+		for i, l := range st.Lhs {
+			le := mp(l)
+			r, fs, ok := hhChain(info, le)
+			if !ok || r != root || len(fs) == 0 {
+				continue
+			}
+			out = append(out, hhDeepAssign{Fields: fs, Rhs: mp(st.Rhs[i]), Lhs: le, D: d, Stmt: st})
+		}
+	}
+	return out
+}
+
+// hhDeepDominatingAssign: an assignment root.field = <rhs accepted by pred>
+// (direct or inside a helper) whose outer site dominates s.
+func hhDeepDominatingAssign(f *engine.Fn, s *engine.Site, root types.Object, field string, pred func(ast.Expr) bool) bool {
+	g := f.Graph()
+	for _, a := range hhDeepFieldAssigns(f, root) {
+		if len(a.Fields) != 1 || a.Fields[0] != field || !pred(a.Rhs) {
+			continue
+		}
+		if a.D.Outer == s || a.D.Outer.Node == s.Node {
+			// same helper call performs the assignment and contains the target: order inside the helper
+			continue
+		}
+		if g.Dominates(a.D.Outer, s) {
+			// inside helpers the assignment must be unconditional w.r.t. the helper body
+			if a.D.Inner != a.D.Outer && !hhInnerAlways(a.D) {
+				continue
+			}
+			return true
+		}
+	}
+	return false
+}
+
+// hhLiftCallers replaces, in a caller/writer set, every function that is not
+// in `allowed` but is an unexported function/method of a loaded package by its
+// own callers (transitively, bounded): an extracted helper is judged by who
+// calls it. The result is the set of "root" callers.
+func hhLiftCallers(p *engine.Prog, callers, allowed []string) []string {
+	ok := map[string]bool{}
+	for _, a := range allowed {
+		ok[a] = true
+	}
+	seen := map[string]bool{}
+	out := map[string]bool{}
+	var visit func(name string, depth int)
+	visit = func(name string, depth int) {
+		if seen[name] {
+			return
+		}
+		seen[name] = true
+		if ok[name] || depth <= 0 {
+			out[name] = true
+			return
+		}
+		fn := p.Func(name)
+		if fn == nil || fn.Obj == nil || fn.Obj.Exported() {
+			out[name] = true
+			return
+		}
+		cs := engine.CallerSet(p.RefsToFunc(name))
+		if len(cs) == 0 {
+			out[name] = true
+			return
+		}
+		for _, r := range p.RefsToFunc(name) {
+			if !r.IsCall { // used as a value: cannot be followed
+				out[name] = true
+				return
+			}
+		}
+		for _, c2 := range cs {
+			if c2 == name {
+				continue
+			}
+			visit(c2, depth-1)
+		}
+	}
+	for _, c := range callers {
+		visit(c, 3)
+	}
+	return engine.SortedKeys(out)
+}
+
+// hhExitSites returns the sites at which h leaves normally: return
+// statements and the fall-off-the-end block.
+func hhExitSites(h *engine.Fn) []*engine.Site {
+	var out []*engine.Site
+	g := h.Graph()
+	for _, b := range g.CFG.Blocks {
+		if !b.Live || len(b.Succs) != 0 {
+			continue
+		}
+		if r := b.Return(); r != nil {
+			if s := h.SiteOf(r); s != nil {
+				out = append(out, s)
+			}
+			continue
+		}
+		if len(b.Nodes) == 0 {
+			// empty exit block: represent it by a synthetic site in that block
+			out = append(out, &engine.Site{Fn: h, Node: h.Body, Block: b, Idx: 0, Top: h.Body})
+			continue
+		}
+		last := b.Nodes[len(b.Nodes)-1]
+		if es, ok := last.(*ast.ExprStmt); ok {
+			if call, isCall := es.X.(*ast.CallExpr); isCall && !h.Prog.MayReturn(h.Info(), call) {
+				continue // panics
+			}
+		}
+		out = append(out, &engine.Site{Fn: h, Node: last, Block: b, Idx: len(b.Nodes), Ord: 1 << 30, Top: last})
+	}
+	return out
+}
+
+// hhDeepMustSucceed: target is reached only if the deep call succeeded (nil
+// error), also when the helper that wraps the call returns nothing and
+// panics/exits on failure itself (`cs.mustValidate(block)`).
+func hhDeepMustSucceed(f *engine.Fn, d engine.DeepSite, target *engine.Site) (bool, string) {
+	if ok, why := hhDeepErrGuard(f, d, target); ok {
+		return true, why
+	}
+	if d.Inner == d.Outer || len(d.Chain) != 1 {
+		return hhDeepErrGuard(f, d, target)
+	}
+	h := d.Chain[0]
+	if h.Type.Results != nil && len(h.Type.Results.List) > 0 {
+		return hhDeepErrGuard(f, d, target)
+	}
+	if !f.Graph().Dominates(d.Outer, target) {
+		return false, "helper call does not dominate the target"
+	}
+	for _, ex := range hhExitSites(h) {
+		if ok, why := hhErrGuard(h, d.Inner, ex); !ok {
+			return false, "helper " + h.Name + " can return normally although the call failed: " + why
+		}
+	}
+	return true, "helper returns only when the call succeeded"
+}
+
+// hhCurProg is the program of the check being run (set by hhUse); it lets
+// expression matchers resolve single-definition locals without threading the
+// function through every call.
+var hhCurProg *engine.Prog
+
+func hhUse(p *engine.Prog) { hhCurProg = p }
+
+// hhResolve replaces a local identifier that has exactly one definition by
+// its defining expression (two levels), so `prevotes := cs.Votes.Prevotes(r);
+// prevotes.TwoThirdsMajority()` reads like the un-hoisted form.
+func hhResolve(f *engine.Fn, e ast.Expr) ast.Expr {
+	for i := 0; i < 2 && e != nil; i++ {
+		id := hhIdent(e)
+		if id == nil {
+			return e
+		}
+		v, ok := f.Info().ObjectOf(id).(*types.Var)
+		if !ok || v.IsField() || v.Pkg() == nil || v.Parent() == v.Pkg().Scope() {
+			return e
+		}
+		d := hhDefExpr(f, v)
+		if d == nil {
+			return e
+		}
+		e = d
+	}
+	return e
+}
+
+// hhResolveRoot rewrites root.f1.f2 where root is a single-definition local
+// whose definition is itself a selector chain (an alias such as
+// `locked := cs.LockedBlock`) into the aliased chain.
+func hhResolveRoot(info *types.Info, e ast.Expr) (ast.Expr, bool) {
+	if hhCurProg == nil {
+		return e, false
+	}
+	r, _, ok := hhChain(info, e)
+	if !ok {
+		return e, false
+	}
+	v, isVar := r.(*types.Var)
+	if !isVar || v.IsField() || v.Pkg() == nil || v.Parent() == v.Pkg().Scope() {
+		return e, false
+	}
+	f := hhCurProg.EnclosingFn(v.Pkg().Path(), v.Pos())
+	if f == nil {
+		return e, false
+	}
+	d := hhDefExpr(f, v)
+	if d == nil {
+		return e, false
+	}
+	if _, _, isChain := hhChain(info, d); !isChain {
+		return e, false
+	}
+	return hhSubst(info, e, map[types.Object]ast.Expr{r: d}), true
+}
+
+// hhStop names functions that are rule anchors themselves: deep searches must
+// not look *through* them (they are checked on their own), only through
+// ordinary helpers. Set per check with hhSetStops.
+var hhStop = map[string]bool{}
+
+func hhSetStops(names ...string) {
+	hhStop = map[string]bool{}
+	for _, n := range names {
+		hhStop[n] = true
+	}
+}
+
+func hhChainStopped(d engine.DeepSite) bool {
+	for _, h := range d.Chain {
+		if hhStop[h.Name] {
+			return true
+		}
+	}
+	return false
+}
+
+// hhInnerAlways: inside every helper on the chain, the step towards the inner
+// site is executed on every path that returns normally (it dominates all the
+// helper's normal exits) — the helper cannot come back without having done it.
+func hhInnerAlways(d engine.DeepSite) bool {
+	for i, h := range d.Chain {
+		var at *engine.Site
+		if i == len(d.Chain)-1 {
+			at = d.Inner
+		} else {
+			for _, s := range h.Calls() {
+				if fn, _ := s.Callee.(*types.Func); fn != nil && h.Prog.FnOf(fn) == d.Chain[i+1] {
+					at = s
+				}
+			}
+		}
+		if at == nil {
+			return false
+		}
+		for _, ex := range hhExitSites(h) {
+			if !(h.Graph().Dominates(at, ex) || at.Block == ex.Block) {
+				return false
+			}
+		}
+	}
+	return true
+}
+
+// hhIntoCaller rewrites an expression of helper h into the caller's terms:
+// single-definition locals of h are replaced by their definitions (two
+// levels), then parameters/receiver by the call's arguments.
+func hhIntoCaller(h *engine.Fn, bind map[types.Object]ast.Expr, e ast.Expr) ast.Expr {
+	info := h.Info()
+	for i := 0; i < 2; i++ {
+		loc := map[types.Object]ast.Expr{}
+		ast.Inspect(e, func(n ast.Node) bool {
+			id, ok := n.(*ast.Ident)
+			if !ok {
+				return true
+			}
+			v, isVar := info.ObjectOf(id).(*types.Var)
+			if !isVar || v.IsField() || v.Pkg() == nil || v.Parent() == v.Pkg().Scope() {
+				return true
+			}
+			if _, isParam := bind[v]; isParam {
+				return true
+			}
+			if !(h.Body.Pos() <= v.Pos() && v.Pos() < h.Body.End()) {
+				return true
+			}
+			if d := hhDefExpr(h, v); d != nil {
+				loc[v] = d
+			}
+			return true
+		})
+		if len(loc) == 0 {
+			break
+		}
+		e = hhSubst(info, e, loc)
+	}
+	return hhSubst(info, e, bind)
 }
